@@ -44,7 +44,7 @@ for fid, v in new["macros"].items():
         if not e["invariant"]:
             print("NEW macro site:", fid, e)
 rec = {e["scc"]: e for e in old["recursion"]}
-new["recursion"] = [rec.get(e["scc"], e) for e in new["recursion"]]
+new["recursion"] = [dict(rec.get(e["scc"], e), members=e["members"]) for e in new["recursion"]]
 for e in new["recursion"]:
     if e.get("status") == "new":
         print("NEW recursive SCC:", e["scc"])
